@@ -14,8 +14,8 @@ VERIF = os.path.abspath(os.path.join(HERE, '..'))
 NPROC = os.cpu_count() or 8
 
 
-def overlay(repo):
-    kdir = os.path.join(VERIF, 'kani')
+def overlay(repo, kdir=None):
+    kdir = kdir or os.path.join(VERIF, 'kani')
     applied = []
     for f in sorted(os.listdir(kdir)):
         m = re.match(r'(\w+)_verif\.rs$', f)
@@ -149,9 +149,11 @@ def run(repo, scratch, krows, seed, tier):
                 try:
                     p2 = subprocess.run(cmd2, cwd=repo, env=env, capture_output=True, text=True, timeout=1200)
                     o2 = p2.stdout + p2.stderr
-                    cm = re.search(r'Concrete playback unit test for `[^`]*`:\n```\n(.*?)```', o2, re.S)
-                    if cm:
-                        cexs[rid] = dict(harness=pr['full'], playback_test=cm.group(1), failed_checks=pr['failed_checks'][:6])
+                    tests = re.findall(r'Concrete playback unit test for `[^`]*`:\n```\n(.*?)```', o2, re.S)
+                    # Kani prints one test per failed check and per satisfied cover: keep the first that is not for a cover property
+                    tests = [t for t in tests if 'Check for `cover`' not in t] or tests
+                    if tests:
+                        cexs[rid] = dict(harness=pr['full'], playback_test=tests[0], failed_checks=pr['failed_checks'][:6])
                 except subprocess.TimeoutExpired:
                     pass
     return dict(rows=rows, failed=failed, per=per, n=len(rows), n_ok=n_ok, wall=time.time() - t0, cmd=' && '.join(cmds), cex=cexs,
